@@ -259,6 +259,19 @@ class E2E:
                 if res.InvocationInfo.InvocationState.value != c['expect'] and c['response_state'] == want_resp:
                     out.append((f'{P}/future-wrong-state/{c["mode"]}/{c["behaviour"]}',
                                 f'transaction {c["tx"]}: result state {res.InvocationInfo.InvocationState.value}, expected {c["expect"]}'))
+        # every transaction id that shows up in reports follows the protocol - also the ids of requests that were refused
+        # (queue full) or that the harness does not know for another reason
+        known = {c['tx'] for c in self.calls}
+        for nl in netlocs:
+            by_tx = {}
+            for t, s, _e, _m in reports[nl]:
+                by_tx.setdefault(t, []).append(s)
+            for t, states in sorted(by_tx.items()):
+                if t not in known and not re.fullmatch(r'(Wait Start )?(Fin|FinMod|Fail|Cnclld|CnclldMan)', ' '.join(states)):
+                    out.append((f'{P}/illegal-report-sequence/unanswered-request',
+                                f'transaction {t} (no response carried this id; {self.refused} requests were refused): '
+                                f'reports to {nl}: "{" ".join(states)}"'))
+                    break
         return out
 
 
